@@ -232,7 +232,8 @@ func fnKey(fn *ssa.Function) string {
 func (p *Prog) CheckGuard(row GuardRow) GuardResult {
 	// the mutex itself may have been renamed: the rule is "the fields are consistently guarded by
 	// one mutex of the struct", so any mutex field under which every access is made will do
-	if p.FieldExact(row.Pkg, row.Type, row.Mutex) == nil {
+	p.Field(row.Pkg, row.Type, row.Mutex) // follows a rename through the recorded type, users and position
+	if p.FieldCanon(row.Pkg, row.Type, row.Mutex) == nil {
 		best, bestN := "", -1
 		for _, m := range p.MutexFields(row.Pkg, row.Type) {
 			r2 := row
@@ -344,7 +345,7 @@ func (p *Prog) checkGuardOnce(row GuardRow) GuardResult {
 	for _, u := range unres {
 		res.Unresolved = append(res.Unresolved, row.Type+"."+u)
 	}
-	if p.FieldExact(row.Pkg, row.Type, row.Mutex) == nil {
+	if p.FieldCanon(row.Pkg, row.Type, row.Mutex) == nil {
 		res.Unresolved = append(res.Unresolved, row.Type+"."+row.Mutex)
 	}
 	held := map[*ssa.Function]string{}
